@@ -296,11 +296,21 @@ def run_complex(case, ctx):
     ea = EpsAlg()
     outs = []
     try:
+        raw = []
         for s_ in given:
-            outs.append(complex(ea(s_)))
+            r_ = ea(s_)
+            raw.append(r_)
+            outs.append(complex(r_))
     except Exception as exc:
         ctx.reject('epsalg_raised', observed=repr(exc), detail=dict(at=len(outs), complex_terms=True, form=form))
         return
+    # an estimate the caller keeps ([alg(s) for s in seq]) is what it was when it was handed out
+    ctx.count('kept_estimates_checked_after_later_calls')
+    for i_, (r_, v_) in enumerate(zip(raw, outs)):
+        now_ = complex(r_)
+        if now_ != v_ and not (now_ != now_ and v_ != v_):
+            ctx.reject('returned_estimate_changed_by_a_later_call', observed=now_, expected=v_, detail=dict(term=i_ + 1, form=form, terms=N))
+            return
     old = mpmath.mp.prec
     mpmath.mp.prec = 400
     try:
